@@ -105,23 +105,38 @@ def _to_sympy0(t, sp, syms, pc=()):
 
 
 def _abstract(t, memo):
-    """t with every maximal nonlinear subterm (product / quotient of non-constants, power, SQRT) replaced by a fresh real
-    constant (the same constant for the same subterm): an over-approximation, so `unsat` carries over"""
-    k0 = t.get_id()
-    if k0 in memo:
-        return memo[k0][1]
-    if z3.is_quantifier(t) or t.num_args() == 0:
-        r = t
-    else:
-        k = t.decl().kind()
-        nonconst = [c for c in t.children() if not (z3.is_rational_value(c) or z3.is_int_value(c))]
-        if (k == z3.Z3_OP_MUL and len(nonconst) >= 2) or (k == z3.Z3_OP_DIV and not z3.is_rational_value(t.arg(1))) or \
-                k == z3.Z3_OP_POWER or (k == z3.Z3_OP_UNINTERPRETED and t.sort() == z3.RealSort()):
-            r = z3.Real('abs!%d' % len(memo))
-        else:
-            r = t.decl()(*[_abstract(c, memo) for c in t.children()])
-    memo[k0] = (t, r)
-    return r
+    """t with every maximal nonlinear subterm (product / quotient of non-constants, power, application of a real-valued
+    uninterpreted function such as SQRT) replaced by a fresh constant of the same sort (the same constant for the same
+    subterm, through `memo`): an over-approximation, so `unsat` carries over"""
+    if isinstance(t, bool):
+        return t
+    found = []
+    stack, seen = [t], set()
+    while stack:
+        x = stack.pop()
+        i = x.get_id()
+        if i in seen:
+            continue
+        seen.add(i)
+        if z3.is_quantifier(x) or x.num_args() == 0:
+            continue
+        k = x.decl().kind()
+        nonconst = sum(1 for c in x.children() if not (z3.is_rational_value(c) or z3.is_int_value(c)))
+        if (k == z3.Z3_OP_MUL and nonconst >= 2) or \
+                (k in (z3.Z3_OP_DIV, z3.Z3_OP_IDIV, z3.Z3_OP_MOD) and not (z3.is_rational_value(x.arg(1)) or z3.is_int_value(x.arg(1)))) or \
+                k == z3.Z3_OP_POWER or (k == z3.Z3_OP_UNINTERPRETED and x.sort() == z3.RealSort()):
+            found.append(x)
+            continue
+        stack.extend(x.children())
+    if not found:
+        return t
+    pairs = []
+    for x in found:
+        i = x.get_id()
+        if i not in memo or not memo[i][0].eq(x):
+            memo[i] = (x, z3.Const('abs!%d' % len(memo), x.sort()))
+        pairs.append(memo[i])
+    return z3.substitute(t, *pairs)
 
 
 def _is_zero(d, sp, roots):
